@@ -1,8 +1,10 @@
 package world
 
 import (
+	"strconv"
 	"strings"
 	"time"
+	_ "time/tzdata"
 
 	"verif/internal/scen"
 )
@@ -141,7 +143,7 @@ func (c *simClock) Now() time.Time {
 		c.covered += step
 	}
 	if c.w.sch == nil {
-		c.w.emit(scen.Event{T: c.w.task(), K: "clock", N: int(t.UnixNano() % 1e9), S: t.Format(time.RFC3339Nano)})
+		c.w.emit(scen.Event{T: c.w.task(), K: "clock", N: t.Nanosecond(), S: strconv.FormatInt(t.Unix(), 10)})
 	}
 	return t
 }
